@@ -226,6 +226,43 @@ pub fn run(a: &Args) {
                         }
                         Err(p) => (json!({"ok": false, "err": "PANIC", "what": format!("encode: {}", panic_text(p))}), true, vec![]),
                     };
+                    // history: encode, change the message through the public API, encode again - the second encoding
+                    // must be the changed message (every 4th case)
+                    if (ci + var) % 4 == 0 && !msg.groups.is_empty() {
+                        let mut m3 = msg.clone();
+                        let gi = (ci / 4) % m3.groups.len();
+                        let tag = m3.groups[gi].tag;
+                        // the first group with that tag receives the attribute (container semantics)
+                        let first = m3.groups.iter().position(|g| g.tag == tag).unwrap();
+                        let newv = gen_av(if ci % 2 == 0 { "I" } else { "K" }, &mut r);
+                        let replace = ci % 8 == 0 && !m3.groups[first].attrs.is_empty();
+                        let name = if replace { m3.groups[first].attrs[0].0.clone() } else { format!("added-{}", ci) };
+                        if replace {
+                            m3.groups[first].attrs[0].1 = newv.clone();
+                        } else {
+                            m3.groups[first].attrs.push((name.clone(), newv.clone()));
+                        }
+                        let m0 = msg.clone();
+                        let second = catch_unwind(AssertUnwindSafe(move || {
+                            let mut req = m0.to_ipp();
+                            let _first = req.to_bytes();
+                            req.attributes_mut().add(DelimiterTag::from_u8(tag).unwrap(), IppAttribute::new(&name, newv.to_ipp()));
+                            let again = req.to_bytes().to_vec();
+                            let mut streamed = vec![];
+                            req.into_read().read_to_end(&mut streamed).unwrap();
+                            (again, streamed)
+                        }));
+                        let (o2, same) = match second {
+                            Ok((again, streamed)) => {
+                                let (o2, _) = parse_sync(&again, again.len(), false);
+                                (o2, again == streamed)
+                            }
+                            Err(p) => (json!({"ok": false, "err": "PANIC", "what": panic_text(p)}), true),
+                        };
+                        let ev2 = json!({"ev": "rt", "case": format!("{}-again", cid), "msg": m3.json(), "out": o2, "pay_ok": same});
+                        sink.emit(&ev2, &json!({"case": format!("{}-again", cid), "what": "encode, add(), encode again; into_read must equal to_bytes", "msg": format!("{:?}", m3).chars().take(3000).collect::<String>()}));
+                        evals += 1;
+                    }
                     let ev = json!({"ev": "rt", "case": cid, "msg": msg.json(), "out": o, "pay_ok": pay_ok});
                     if samples.len() < 3 {
                         samples.push(json!({"case": cid, "abstract": case["want"], "bytes": hex_full(&bytes[..bytes.len().min(200)])}));
@@ -306,6 +343,27 @@ pub fn run(a: &Args) {
                             Ok(bytes) => {
                                 if !seen.insert(fnv64(&bytes)) {
                                     continue;
+                                }
+                                if _trial == 0 && ci % 4 == 0 && !msg.groups.is_empty() {
+                                    // history: encode, add an attribute, encode again (C03 judges the second encoding)
+                                    let mut m3 = msg.clone();
+                                    let tag = m3.groups[0].tag;
+                                    let newv = gen_av("K", &mut r);
+                                    let name = format!("added-{}", ci);
+                                    m3.groups[0].attrs.push((name.clone(), newv.clone()));
+                                    let m0 = msg.clone();
+                                    if let Ok(again) = catch_unwind(AssertUnwindSafe(move || {
+                                        let mut req = m0.to_ipp();
+                                        let _ = req.to_bytes();
+                                        req.attributes_mut().add(DelimiterTag::from_u8(tag).unwrap(), IppAttribute::new(&name, newv.to_ipp()));
+                                        req.to_bytes().to_vec()
+                                    })) {
+                                        let tz2 = tokenize(&again);
+                                        let rest2 = tz2.end.map(|e| again.len() - e).unwrap_or(0);
+                                        sink.emit(&json!({"ev": "enc", "case": format!("{}-again", cid), "msg": m3.json(), "hdr": hdr_json(tz2.hdr),
+                                            "toks": toks_json(&tz2.toks), "term": tz2.term, "rest": rest2}),
+                                            &json!({"case": format!("{}-again", cid), "what": "encode, add(), encode again"}));
+                                    }
                                 }
                                 let tz = tokenize(&bytes);
                                 let rest = tz.end.map(|e| bytes.len() - e).unwrap_or(0);
